@@ -87,7 +87,7 @@ CHECKS = {
          'tau, gamma, rho. Necessary condition only; effective-degree and node-level models are not covered (right-hand sides not evaluable on exact values).',
     design_ref='DESIGN.md section 5 "C07"',
     note='M (cited): semiconjugacy + uniqueness of ODE solutions give equality of whole curves. Bounded in order and graphs.',
-    technique='symbolic execution of the real right-hand sides (sympy Lie derivatives) against the odeint contract (bounded)'),
+    technique='symbolic execution of the real right-hand sides (sympy Lie derivatives) against the odeint contract + real numeric solves for the models not evaluable on exact values + body of _my_odeint_ against the assumed scipy.integrate.ode contract (all bounded)'),
  'C08': dict(
     category='other',
     text='Bounded stand-ins: tau=0 gives I\'=-gamma I, I\'\'=gamma^2 I (S constant for SIR models, S=N-I for SIS) from the exact Lie derivatives of every evaluable '
@@ -96,7 +96,7 @@ CHECKS = {
          '(<= 6 nodes, all single seeds, weights on edges and nodes, tmin != 0; tolerance 2e-4).',
     design_ref='DESIGN.md section 5 "C08"',
     note='The tree-exactness clause is a theorem about the closure and is only checked up to a stated bound. Bounded in order / graphs / degree distributions.',
-    technique='symbolic execution of the real right-hand sides (sympy) + bounded native numeric comparison for final sizes'),
+    technique='symbolic execution of the real right-hand sides (sympy) + bounded native numeric comparisons (final sizes; 3^N master equation on small trees) + body of _my_odeint_ against the assumed scipy.integrate.ode contract'),
  'C14': dict(
     category='other',
     text='Unbounded: opacity analysis - in no function of analytic.py does a name bound by iterating over nodes subscript an array, so node labels are only hashed and '
@@ -150,7 +150,7 @@ CHECKS = {
          'every listed delay, infect iff susceptible then) on 400 random graphs <= 6 nodes with table-driven, tie-free durations and delay lists (sorted and unsorted, both calling styles, silent and short-lived nodes, tmax placed exactly on an event time); node histories must coincide.',
     design_ref='DESIGN.md section 5 "C13"',
     note='Equality in law with fast_SIS under exponential rules is not decided. No unbounded contract for _process_trans_SIS_nonMarkov_.',
-    technique='bounded check of the real simulator against an independent reference semantics (stand-in for contracts out of reach)'),
+    technique='contract-based deductive verification of the delay adapter (z3); bounded check of the real simulator against an independent reference semantics (stand-in for the handler contract, which is out of reach)'),
  'C15': dict(
     category='proof',
     text='Gillespie_complex_contagion: loop invariant "rates[u] = rate_function(G,u,status,parameters) for every node with positive rate, total = their sum" established by the '
